@@ -27,7 +27,7 @@ RULE = ('Hypothesis draws a pool of 2..3 (T, v) pairs whose schema objects are s
 RULE += (' ' + "Also: ANY in the pool types, a call with the caller's own tagMap=, module-level codec tables snapshotted, empty schemaless containers of two results compared for sharing, DEFAULT members of one result read and emptied before another result is looked at.")
 ASSUMPTIONS = ['thread schedules are sampled (sys.setswitchinterval(1e-6)), not controlled: this sub-check can expose a race, it '
                'cannot show absence']
-SHARDS = {'quick': (16, 90), 'thorough': (16, 2500)}
+SHARDS = {'quick': (16, 150), 'thorough': (16, 2500)}
 BUDGET = {'quick': 100, 'thorough': 1500}
 MIN_NONTRIVIAL = {'quick': 300, 'thorough': 5000}
 CFG = {'long_str_pct': 0, 'max_depth': 3, 'any': True, 'real10_pct': 0, 'max_comps': 3, 'constructed_default_pct': 35}
@@ -286,7 +286,45 @@ def mutate_all(T, obj):
         pass
 
 
+def _codec_tables():
+    """The module-level codec tables (configuration shared by every call of the process): {(module, table): {key: codec object}}."""
+    import importlib
+    out = {}
+    for mod in ('ber.decoder', 'cer.decoder', 'der.decoder', 'ber.encoder', 'cer.encoder', 'der.encoder', 'native.decoder', 'native.encoder'):
+        m = importlib.import_module('pyasn1.codec.' + mod)
+        for name in ('TAG_MAP', 'TYPE_MAP'):
+            t = getattr(m, name, None)
+            if isinstance(t, dict):
+                out[(mod, name)] = (t, dict(t))
+    return out
+
+
+TABLES0 = _codec_tables()
+
+
+def tables_changed():
+    """-> list of (module.table, key) whose entry differs from what it was at start-up; the tables are put back."""
+    diff = []
+    for (mod, name), (live, saved) in TABLES0.items():
+        if live.keys() != saved.keys() or any(live[k] is not saved[k] for k in saved):
+            for k in set(live) | set(saved):
+                if live.get(k) is not saved.get(k):
+                    diff.append(('%s.%s' % (mod, name), str(k)[:60], type(live.get(k)).__name__))
+            live.clear()
+            live.update(saved)
+    return diff
+
+
 def run_case(case):
+    fails = _run_case(case)
+    diff = tables_changed()
+    if diff:
+        fails.append({'sub': 'configuration', 'kind': 'codec-tables', 'sig': diff[0][0], 'obs': None,
+                      'msg': 'the module-level codec tables were changed by the calls of this history: %s' % (diff[:4],)})
+    return fails
+
+
+def _run_case(case):
     fails = []
 
     def F(sub, kind, msg, sig=''):
@@ -535,7 +573,7 @@ def run_shard(desc, seed, tier, col):
                     pool.append([T, {'low': x2, 'mid': y, 'high': x1}])
         elif d.pct(60):
             pool.append([pool[0][0], gen.draw_value(d, pool[0][0])])       # the same type twice
-        hist = [[d.pick(CALLS), d.int(0, len(pool) - 1), d.int(0, 5)] for _ in range(d.int(3, 10))]
+        hist = [[d.pick(CALLS + ['dec-tagmap', 'dec-BER', 'enc-native']), d.int(0, len(pool) - 1), d.int(0, 5)] for _ in range(d.int(3, 10))]
         case = {'pool': pool, 'history': hist}
         if d.pct(50):
             k = d.int(2, 4)
